@@ -150,13 +150,20 @@ func init() {
 				core.RejectWhen{Fn: fn, Name: "hash already queued", BoolAtom: core.CallAtom([]string{skq + "Exist"}), RejectVal: true, Sentinel: "types.ErrTxExist"}.Check(r)
 				core.FailStops{Fn: fn, Callee: []string{skq + "Exist"}, Fail: core.OTrue, Idx: -1, Forbidden: insertSink, Min: 1, Name: "Exist(hash)=true"}.Check(r)
 				core.HasAtom{Fn: fn, Name: "size >= maxsize is the capacity test", L: core.CallsAny(skq+"Size", "builtin:len"), R: core.Mentions(skp + "Queue.maxsize"), Rel: token.GEQ}.Check(r)
-				// at capacity: the newcomer must rank strictly higher than the tail …
-				notBigger := core.AssumeRel(rankCmp, token.EQL, core.IsConstInt(-1), core.False)
-				notEqual := core.AssumeRel(rankCmp, token.EQL, core.IsConstInt(0), core.False)
-				itemNotBigger := core.AssumeRel(itemCmp, token.EQL, core.IsConstInt(-1), core.False)
-				core.UnreachableUnder{Fn: fn, Spec: &core.FlowSpec{Assume: core.AssumeAll(isFull, notBigger, notEqual)}, Sink: insertSink, Name: "queue full and the newcomer's score is lower than the tail's", Min: 1}.Check(r)
-				core.UnreachableUnder{Fn: fn, Spec: &core.FlowSpec{Assume: core.AssumeAll(isFull, notBigger, itemNotBigger)}, Sink: insertSink, Name: "queue full, score not higher and the tie-break does not say bigger", Min: 1}.Check(r)
-				core.UnreachableUnder{Fn: fn, Spec: &core.FlowSpec{Assume: core.AssumeAll(isFull, notBigger, notEqual)}, Sink: core.CallSink(skq + "Remove"), Name: "queue full and the newcomer's score is lower than the tail's (nothing is evicted for it)", Min: 1}.Check(r)
+				// at capacity: the newcomer must rank strictly higher than the tail.  Both comparisons are three-valued
+				// (Big=-1, Equal=0, Small=1); every outcome other than "score bigger" or "score equal and tie-break
+				// bigger" is enumerated and must leave both the eviction and the insertion unreachable.
+				for _, sc := range []struct {
+					rank, item int64
+					what       string
+				}{
+					{0, 0, "equal score, tie-break says equal"}, {0, 1, "equal score, tie-break says smaller"},
+					{1, -1, "lower score, tie-break says bigger"}, {1, 0, "lower score, tie-break says equal"}, {1, 1, "lower score, tie-break says smaller"},
+				} {
+					as := core.AssumeAll(isFull, core.AssumeValue(rankCmp, sc.rank), core.AssumeValue(itemCmp, sc.item))
+					core.UnreachableUnder{Fn: fn, Spec: &core.FlowSpec{Assume: as}, Sink: insertSink, Name: "queue full, " + sc.what, Min: 1}.Check(r)
+					core.UnreachableUnder{Fn: fn, Spec: &core.FlowSpec{Assume: as}, Sink: core.CallSink(skq + "Remove"), Name: "queue full, " + sc.what + " (nothing is evicted)", Min: 1}.Check(r)
+				}
 				// … and the eviction must have succeeded
 				core.Dominated{Fn: fn, Spec: &core.FlowSpec{Assume: isFull, Calls: []core.CallGuard{errNil("tail-evicted", skq+"Remove")}}, Sink: insertSink, Need: []Fact{"tail-evicted"}, Min: 1}.Check(r)
 				core.CallArgs{Fn: fn, Callee: []string{skq + "Remove"}, What: "evicts the item Last() returned", Args: map[int]core.ExprPred{0: core.DerivedFromCall(skq + "Last")}, Min: 1}.Check(r)
